@@ -5,6 +5,7 @@
 // exit 1 = a pixel differs from the model / out_of_range escaped / memory error (ASan); 0 = agrees on this input; 2 = not replayable.
 #include "replay/common/args.hh"
 #include "Image.hh"
+#include "ImageTextFont.hh" // the glyph table (static uint8_t font[96][35]); the geometry of a cell is modelled below
 #include <algorithm>
 #include <cstdlib>
 #include <functional>
@@ -284,6 +285,30 @@ int main(int argc, char** argv) {
       RCHECK(marked <= n, "%zd pixels marked, at most %zd expected", marked, n);
     }
     return 0;
+  }
+  // ---- one text cell: a single character at any cursor position against the per-pixel model of a cell
+  if (m == "draw_text_cell") {
+    ssize_t xp = (ssize_t)A.u("in_xpos"), yp = (ssize_t)A.u("in_ypos");
+    if (xp < -100000 || xp > 100000 || yp < -100000 || yp > 100000) { xp %= 64; yp %= 64; }
+    uint8_t ch = (uint8_t)A.u("in_ch");
+    uint64_t br = A.u("in_br"), bg = A.u("in_bg"), bb = A.u("in_bb"), ba = A.u("in_ba");
+    if (ba != 0) ba = 0xFF;                          // the contract decides the background colour for an opaque background only
+    if (ch == 0 || ch == '\r') { printf("a text of one NUL / CR draws no cell\n"); return 2; }
+    printf("cell '%c' (0x%02X) at (%zd,%zd) on a %zd x %zd canvas, ba=0x%llX\n", (ch >= 0x20 && ch < 0x7F) ? ch : '?', ch, xp, yp, ds.w, ds.h, (unsigned long long)ba);
+    Exc e = run([&] { dst.draw_text(xp, yp, r, g, b, a, br, bg, bb, ba, "%c", (int)ch); });
+    RCHECK(e == NONE, "draw_text %s", excname(e));
+    auto in = [](ssize_t px, ssize_t py, ssize_t rx, ssize_t ry, ssize_t rw, ssize_t rh) { return px >= rx && px < rx + rw && py >= ry && py < ry + rh; };
+    uint8_t gi = (uint8_t)(((ch < 0x20 || ch > 0x7F) ? 0x7F : ch) - 0x20);
+    return compare(dst, ds, old, [&](ssize_t px, ssize_t py, const Px& o) {
+      Px v = o;
+      if (ch == '\n') {   // strip of the line break, then the closing strip of the (empty) next line
+        if (ba && (in(px, py, xp - 1, yp - 1, 1, 9) || in(px, py, xp - 1, yp + 8 - 1, 1, 9))) v = stored(ds, br, bg, bb, ba);
+        return v;
+      }
+      if (ba && (in(px, py, xp - 1, yp - 1, 6, 9) || in(px, py, xp + 5, yp - 1, 1, 9))) v = stored(ds, br, bg, bb, ba);
+      ssize_t cx = px - xp, cy = py - yp;
+      if (cx >= 0 && cx < 5 && cy >= 0 && cy < 7 && font[gi][cy * 5 + cx]) v = stored(ds, r, g, b, a);
+      return v; }, "draw_text (one cell)");
   }
   // ---- text: no exception for any byte; clipping invariance against a larger canvas
   if (m == "draw_text_v") {
